@@ -184,3 +184,27 @@ def only_via(fn, block, edges):
             seen.add(s)
             st.append(s)
     return True
+
+
+def emptied_before(P, fn, ev, cache_var, field):
+    """Is the container (member `field` of the local cache object `cache_var`, or the local `cache_var` itself when field is None)
+    emptied on every path from the entry of fn to event ev?  Emptying = clear() / resize(..) on it, or a call of a method on the
+    cache object whose body (looked up in P) clears this->field on every path to its normal exit.  Returns the offending path or None."""
+    def direct(q):
+        if q["k"] != "call" or not str(q.get("fn", "")).endswith(("::clear", "::resize")):
+            return False
+        o = call_obj(q)
+        if field is None:
+            return o == ["var", cache_var]
+        return isinstance(o, list) and o and o[0] == "mem" and o[2] == field and var_of(o[1]) == cache_var
+
+    def via_callee(q):
+        if q["k"] != "call" or field is None or call_obj(q) != ["var", cache_var]:
+            return False
+        for g in P.by_id.get(q.get("fid"), []) or P.fns_named(str(q.get("fn", ""))):
+            clears = lambda r: r["k"] == "call" and str(r.get("fn", "")).endswith(("::clear", "::resize")) and isinstance(call_obj(r), list) and \
+                call_obj(r)[0] == "mem" and call_obj(r)[2] == field and call_obj(r)[1] == ["this"]
+            if g.path_exists(None, "exit", clears) is None:
+                return True
+        return False
+    return fn.path_exists(None, lambda q: q is ev, lambda q: direct(q) or via_callee(q))
